@@ -1,6 +1,8 @@
 (* C20 — No request can crash or wedge a node, with production metrics enabled.
    Property theorems only: each is closed by `exact <lemma>` and followed by Print Assumptions. *)
-From KB Require Import Base.Cases Model.Metrics Model.Handlers Model.C20Cases Proofs.Metrics Proofs.C20Cases.
+From KB Require Import Base.Cases Model.Metrics Model.Handlers Model.HandlerMetrics Model.C20Cases
+  Proofs.Metrics Proofs.C20Cases Proofs.HandlerMetrics.
+From KB Require Model.WatchSys Proofs.WatchSys Proofs.WatchCatchup Proofs.WatchFrame Proofs.WatchNoPanic.   (* C05's development, cited below; not imported *)
 Local Open Scope N_scope.
 
 (* (a) metric emission never panics.  For every table [t] of emission call sites that passes the
@@ -28,27 +30,106 @@ Theorem C20_oracle_sound : forall gn t c,
 Proof. exact c20_oracle_sound. Qed.
 Print Assumptions C20_oracle_sound.
 
-(* (b) request totality.  The full statement is over a model of the whole node: *)
-Record node_system := {
-  ns_state : Type;
-  ns_reachable : ns_state -> Prop;
-  ns_step : ns_state -> request -> ns_state * req_outcome;
-  ns_serves : ns_state -> Prop      (* a later create becomes readable and the committed revision reaches it *)
-}.
-Definition C20_full_statement (sys : node_system) : Prop :=
-  forall s r, ns_reachable sys s ->
-    (snd (ns_step sys s r) = OResp \/ snd (ns_step sys s r) = OErr) /\ ns_serves sys (fst (ns_step sys s r)).
+(* (b) request totality.  There is no model of the whole node in this file and therefore no theorem "no request
+   crashes or wedges the node" as such (props/C20.json, gaps).  What is proved: the guards of the handler model
+   (below), every metric emission of the program (above), and — cited from C04 / C05 — progress and the watcher
+   hub.  The evidence that the REAL handlers do not panic on hostile bytes, revisions and limits (slice bounds,
+   decoding, nil maps, allocation sizes) is the child-process run of the driver, not a theorem. *)
+(* The guards of the handler model — PARTIAL for the property.  Model/Handlers.v reduces a request to what the
+   handlers' validation and the transaction recognisers look at; keys and values enter only through "is it empty".
+   Modelled, on a leader: native Create, Update, Delete, Compact, Get, Range, Count, ListPartition, RangeStream,
+   Watch; etcd Range (get / list-partition / count / range), Txn (create / delete / update / compact / unsupported
+   shapes), Watch.  For every request of that model (every constructor, every byte string, every revision / limit in
+   N resp. Z, every list of compares and operations):
+     (1) the model's explicit panic sources — a nil Kv reaching backend.Update, a create shape without a put, and
+         (handle_p) an index out of range in the transaction recognisers — are not reached;
+     (2) the request is rejected before the backend or allocates at most one revision;
+     (3) every metric the handler emits itself is an instance of a table row, hence — the table passing the check —
+         the Prometheus wrapper does not panic on it ([covers t all_handler_rows] is the regenerated obligation
+         Gen.MetricsTableOk.handlers_covered).
+   This says nothing about panics inside the real handlers that the model does not represent. *)
+Theorem C20_handler_guards_partial : forall g t,
+  check (map fst g) t = true -> Forall (fun v => valid_utf8 v = true) (map snd g) -> covers t all_handler_rows = true ->
+  forall r,
+    handle r <> HPanic /\
+    (forall n, handle r = HRun n -> n <= 1) /\
+    (forall s h e, reachable g t s -> In h (handler_rows r) -> instance_of h e = true -> snd (emit s e) = Ok).
+Proof. exact handlers_total. Qed.
+Print Assumptions C20_handler_guards_partial.
 
-(* proved part: behind the handlers' validation no explicit Go panic source (nil Kv dereference in
-   backend.Update, a create shape without a put) is reachable, for every request of either API;
-   and a request allocates at most one revision (what the progress probe relies on). *)
-Theorem C20_total_partial : forall r, handle r <> HPanic.
-Proof. exact handle_no_panic. Qed.
-Print Assumptions C20_total_partial.
+(* Explicit partial operations on request data, where Go would panic:
+   - the transaction recognisers of kv.go index Compare / Success / Failure (index out of range = PPanic) behind
+     length tests joined by short-circuit &&: for EVERY three lists the guarded recognisers do not panic and decide
+     exactly the shape [txn_shape_of] names; *)
+Theorem C20_txn_recognisers_total : forall cmp succ fail,
+  txn_shape_p cmp succ fail = PVal (txn_shape_of cmp succ fail).
+Proof. exact txn_shape_p_total. Qed.
+Print Assumptions C20_txn_recognisers_total.
 
-Theorem C20_alloc_partial : forall r n, handle r = HRun n -> n <= 1.
-Proof. exact handle_alloc_le_1. Qed.
-Print Assumptions C20_alloc_partial.
+Theorem C20_handle_p_no_panic : forall r, handle_p r <> HPanic.
+Proof. exact handle_p_no_panic. Qed.
+Print Assumptions C20_handle_p_no_panic.
+
+(* - List: the limit goes through `limit+1` (int64 wrap-around), becomes the receiver's limit, and the result is cut
+     with kvs[0:limit] (slice bounds out of range = PPanic); buffers are made with make(.., 0, n) (n < 0 or n beyond
+     the allocator's limit = PPanic).  For EVERY int64 limit and every number of matching keys neither panics, and
+     the answer (count, More) is the one list_response_ok accepts. *)
+Theorem C20_list_total : forall limit found,
+  (min_int64 <= limit <= max_int64)%Z -> (0 <= found)%Z ->
+  exists n more, list_exec limit found = PVal (n, more) /\ list_response_ok limit n more = true /\ (n <= found)%Z.
+Proof. exact list_exec_total. Qed.
+Print Assumptions C20_list_total.
+
+(* validity (what the model can decide about a case: the table check for table cases, nothing for the others) is
+   decidable and evaluated by the shards: a case accepted by a shard (c20_check_covered) is within the scope of
+   C20_oracle_sound, or the oracle has already rejected it.  For request cases c20_check compares the observed
+   outcome class, allocation, list answer, handler emissions, health and progress with what the model predicts;
+   C20_oracle_sound then rests on C20_handle_p_no_panic (the model never predicts a panic).  KSeq and KCancel are
+   model-validation cases: their oracle is constantly None. *)
+Theorem C20_validb_sound : forall gn t c, c20_validb gn t c = true -> c20_valid gn t c.
+Proof. exact c20_validb_sound. Qed.
+Print Assumptions C20_validb_sound.
+
+Theorem C20_covered_scope : forall gn t c,
+  c20_check_covered gn t c = true -> c20_oracle gn t c = None -> c20_valid gn t c.
+Proof. exact c20_covered_scope. Qed.
+Print Assumptions C20_covered_scope.
+
+(* The watch-liveness probe and the slow-client scenario are the image of two theorems of C05's model of the
+   watcher hub (Model/WatchSys.v), cited here: a subscriber whose buffer was found full is closed and unregistered
+   within the same hub step — the hub goes on delivering to the others — and, with the real channel sizes, Watch
+   itself neither blocks nor panics whatever the event ring returned. *)
+Theorem C20_slow_subscriber_is_dropped : forall pa l c0 ls i w, 0 < l ->
+  nth_error (KB.Model.WatchSys.s_ws (KB.Model.WatchSys.run pa ls (KB.Model.WatchSys.init l c0))) i = Some w ->
+  KB.Model.WatchSys.w_dropped w = true ->
+  KB.Model.WatchSys.w_reg w = false /\ KB.Model.WatchSys.c_closed (KB.Model.WatchSys.w_sub w) = true.
+Proof. exact KB.Proofs.WatchSys.dropped_is_closed. Qed.
+Print Assumptions C20_slow_subscriber_is_dropped.
+
+(* ... and the hub goes on delivering to the others: the state of watcher i (what it holds, what its client has
+   received) after a run equals its state after the same run with every step of another watcher j removed — a
+   slow, dropped or cancelled sibling changes nothing for it (C05_siblings_independent); and in no run does the hub
+   panic or a watcher hang (C05_no_panic_no_hang). *)
+Theorem C20_hub_keeps_delivering : forall pa l c0 ls i j, 0 < l -> KB.Proofs.WatchCatchup.fits_params pa -> i <> j ->
+  nth_error (KB.Model.WatchSys.s_ws (KB.Model.WatchSys.run pa ls (KB.Model.WatchSys.init l c0))) i
+  = nth_error (KB.Model.WatchSys.s_ws (KB.Model.WatchSys.run pa
+      (filter (fun lb => negb (KB.Proofs.WatchFrame.targets j lb)) ls) (KB.Model.WatchSys.init l c0))) i.
+Proof. exact KB.Proofs.WatchFrame.sibling_stream_independent. Qed.
+Print Assumptions C20_hub_keeps_delivering.
+
+Theorem C20_hub_no_panic_no_hang : forall pa l c0 ls, 0 < l -> KB.Proofs.WatchCatchup.fits_params pa ->
+  let s := KB.Model.WatchSys.run pa ls (KB.Model.WatchSys.init l c0) in
+  KB.Model.WatchSys.s_panic s = false /\
+  forall i w, nth_error (KB.Model.WatchSys.s_ws s) i = Some w ->
+    KB.Model.WatchSys.w_phase w <> KB.Model.WatchSys.PhPanic /\ KB.Model.WatchSys.w_phase w <> KB.Model.WatchSys.PhHung.
+Proof. exact KB.Proofs.WatchNoPanic.no_panic_no_hang. Qed.
+Print Assumptions C20_hub_no_panic_no_hang.
+
+Theorem C20_watch_never_hangs : forall l sigma S P c,
+  KB.Model.WatchSys.watch_decide KB.Model.WatchSys.real_params S P (KB.Model.WatchSys.find_spec l sigma S) c <> KB.Model.WatchSys.DHang /\
+  KB.Model.WatchSys.watch_decide KB.Model.WatchSys.real_params S P (KB.Model.WatchSys.find_spec l sigma S) c <> KB.Model.WatchSys.DPanic.
+Proof. intros. exact (KB.Proofs.WatchCatchup.decide_never_hangs _ l sigma S P c KB.Proofs.WatchCatchup.real_params_fit). Qed.
+Print Assumptions C20_watch_never_hangs.
 
 (* what List / Range do with the client's limit, for every int64: limits 1 .. MaxInt64-1 stop the scan
    after limit+1 results, everything else (0, negative, MaxInt64 whose +1 overflows) is unlimited; and no
@@ -104,6 +185,22 @@ Proof. vm_compute. reflexivity. Qed.
 (* the handler guard is what keeps the nil-Kv dereference unreachable *)
 Example C20_unguarded_update_panics : handle_unguarded_update false = HPanic.
 Proof. vm_compute. reflexivity. Qed.
+(* the hypotheses of C20_handler_guards_partial are satisfiable: the handler rows cover themselves and pass the check *)
+Example C20_handler_guards_inhabited :
+  check [] all_handler_rows = true /\ covers all_handler_rows all_handler_rows = true /\
+  handler_rows (BCreate [47] [118]) <> [] /\
+  instance_of (hd (mk Gauge [] [] AnySign) (handler_rows (ETxn [] [] [])))
+    {| e_kind := Counter; e_name := n_write; e_labels := [(l_method, m_invalid); (l_success, v_false)]; e_neg := false |} = true /\
+  c20_validb (Some []) all_handler_rows (KReq (BGet [47] 0) OResp 0%Z true true None []) = true /\
+  c20_check_covered (Some []) all_handler_rows (KReq (BGet [47] 0) OPanic 0%Z true true None []) = false.
+Proof. vm_compute. repeat split; try reflexivity; discriminate. Qed.
+(* the guards are needed: without the length test the recogniser indexes an empty list; a buffer sized from the
+   limit (seeded/C20-2, C20-4) panics for 2^62; cutting to a limit beyond the result panics *)
+Example C20_partial_ops_can_panic :
+  is_create_unguarded [] = PPanic /\ is_create_p [] [] [] = PVal false /\
+  list_exec_presized 4611686018427387904 5 = PPanic /\ list_exec 4611686018427387904 5 = PVal (5%Z, false) /\
+  slice_to 3 7 = PPanic /\ list_exec 2 9 = PVal (2%Z, true) /\ make_cap (-1) = PPanic.
+Proof. vm_compute. repeat split; reflexivity. Qed.
 Example C20_limit_examples :
   list_limit max_int64 = Unlimited /\ list_limit (max_int64 - 1) = Limited max_int64 /\
   list_limit 4611686018427387904 = Limited 4611686018427387905 /\ list_limit (-1) = Unlimited /\ list_limit 0 = Unlimited /\
